@@ -6,6 +6,7 @@
  * Script on stdin, one operation per line:
  *   W fn0 delta count    struct gsm_time t; gsm_fn2gsmtime(&t, fn0);
  *                        then count x l1s_time_inc(&t, delta)
+ *   S fn0 d1 d2 ... dn   the same with one delta per call (mixed strides)
  * Output, one line per call:  <after.fn> TAB <event JSON without closing brace>
  * (the harness appends the Python toolkit's result and the brace).
  */
@@ -25,12 +26,23 @@ static void put_after(const struct gsm_time *t)
 
 int main(void)
 {
-	char line[256];
+	static char line[1 << 16];
 	static char obuf[1 << 20];
 	setvbuf(stdout, obuf, _IOFBF, sizeof(obuf));
 	while (fgets(line, sizeof(line), stdin)) {
-		unsigned long fn0, delta, count, i;
-		if (line[0] != 'W' || sscanf(line + 1, "%lu %lu %lu", &fn0, &delta, &count) != 3) {
+		unsigned long fn0, delta = 0, count = 0, i;
+		static unsigned long seq[8192];
+		int mixed = line[0] == 'S';
+		if (mixed) {
+			char *p = line + 1, *e;
+			fn0 = strtoul(p, &e, 10);
+			for (p = e; count < 8192; p = e) {
+				unsigned long v = strtoul(p, &e, 10);
+				if (e == p)
+					break;
+				seq[count++] = v;
+			}
+		} else if (line[0] != 'W' || sscanf(line + 1, "%lu %lu %lu", &fn0, &delta, &count) != 3) {
 			if (line[0] == '\n' || line[0] == '#')
 				continue;
 			fprintf(stderr, "bad op: %s", line);
@@ -45,6 +57,8 @@ int main(void)
 		for (i = 0; i < count; i++) {
 			struct gsm_time d;
 			uint32_t before = t.fn, re;
+			if (mixed)
+				delta = seq[i];
 			l1s_time_inc(&t, (uint32_t)delta);
 			memset(&d, 0x5a, sizeof(d));
 			gsm_fn2gsmtime(&d, t.fn);
